@@ -106,3 +106,48 @@ m = {
 }
 json.dump(m, open(os.path.join(V, "MANIFEST.json"), "w"), indent=1)
 print("claimed:", sorted(CLAIMS), "unclaimed:", [x["property_id"] for x in na])
+
+# ---------------------------------------------------------------------------
+# PROPERTIES_STATUS.md (theorems per property, from the registry and the last evidence)
+# and seeded/RESULTS.md
+# ---------------------------------------------------------------------------
+import sys
+sys.path.insert(0, os.path.join(V, "tools"))
+import props as _props  # noqa: E402
+
+lines = ["# Property status (generated by tools/mkmanifest.py)", ""]
+for p in props:
+    pid = p["id"]
+    P = _props.PROPS.get(pid, {})
+    lines.append(f"## {pid} — {p['title']}")
+    lines.append("")
+    lines.append(f"claimed: {'yes' if pid in CLAIMS else 'no'}; theorems required by the check: "
+                 f"{len(P.get('theorems', []))}")
+    evp = os.path.join(V, "evidence", f"{pid}.json")
+    if os.path.exists(evp):
+        try:
+            ev = json.load(open(evp))
+            th = ev["coverage"].get("theorems", {})
+            for t, ax in th.items():
+                lines.append(f"* `{t}` — axioms: {', '.join(ax) if ax else 'none'}")
+            c = ev["coverage"]
+            lines.append("")
+            lines.append(f"last run: tier={ev['tier']} seed={ev['seed']} scripts={c.get('evaluations')} "
+                         f"agreeing={c.get('traces_validated_against_impl')} disagreements={c.get('disagreements')} "
+                         f"violations={ev.get('violations')} known_findings_met={len(ev.get('known_findings_met', []))}")
+        except Exception as e:  # pragma: no cover
+            lines.append(f"(evidence unreadable: {e})")
+    lines.append("")
+open(os.path.join(V, "PROPERTIES_STATUS.md"), "w").write("\n".join(lines))
+
+sd = os.path.join(V, "seeded")
+if os.path.isdir(sd):
+    rows = ["# Seeded changes and what caught them (generated)", "",
+            "| id | breaks | needs to manifest | checks run / result |", "|---|---|---|---|"]
+    for d in sorted(os.listdir(sd)):
+        mp = os.path.join(sd, d, "meta.json")
+        if os.path.exists(mp):
+            m = json.load(open(mp))
+            need = str(m.get("needs_to_manifest", m.get("what_it_needs_to_manifest", ""))).replace("\n", " ")[:260]
+            rows.append(f"| {d} | {m.get('breaks_property', '')} | {need} | {str(m.get('checks_run', ''))[:300]} |")
+    open(os.path.join(sd, "RESULTS.md"), "w").write("\n".join(rows) + "\n")
